@@ -80,6 +80,105 @@ func c10(c *Ctx) {
 	if fn := c.Fn(suppressPkg, "CPUSuppress", "adjustByCfsQuota"); fn != nil {
 		c10quota(c, fn)
 	}
+	if fn := c.Fn("pkg/koordlet/qosmanager/helpers", "", "CalculateFilterPodsUsed"); fn != nil {
+		c10sysfloor(c, fn)
+	}
+	if fn := c.Fn(suppressPkg, "", "calculateBESuppressCPUSetPolicy"); fn != nil {
+		c10progress(c, fn)
+	}
+}
+
+// c10progress: each selection loop of calculateBESuppressCPUSetPolicy starts with a fresh no-progress marker.
+func c10progress(c *Ctx, fn *ssa.Function) {
+	r := c.R
+	r.Rule("PATH: in calculateBESuppressCPUSetPolicy every loop that stops on 'marker == needCPUs' (no CPU picked in a full round) enters with the marker freshly set to -1 (a marker left over from the previous loop would stop the next loop before it picked anything)")
+	n := 0
+	for _, b := range fn.Blocks {
+		for _, in := range b.Instrs {
+			bo, ok := in.(*ssa.BinOp)
+			if !ok || bo.Op != token.EQL {
+				continue
+			}
+			marker, ok1 := bo.X.(*ssa.Phi)
+			need, ok2 := bo.Y.(*ssa.Phi)
+			if !ok1 || !ok2 || marker.Block() != need.Block() {
+				continue
+			}
+			if !strings.Contains(marker.Comment, "preNeed") && !strings.Contains(need.Comment, "need") {
+				continue
+			}
+			hdr := marker.Block()
+			n++
+			fresh := true
+			entries := 0
+			for i, p := range hdr.Preds {
+				if hdr.Dominates(p) {
+					continue // back edge
+				}
+				entries++
+				if k, isC := constIntOf(marker.Edges[i]); !isC || k != -1 {
+					fresh = false
+				}
+			}
+			r.Check(fresh && entries >= 1, "PATH", sprintf("%s/fresh-progress-marker#%d", fkey(fn), n), c.InstrPos(bo), "the loop enters with a fresh marker",
+				"a selection loop enters with the no-progress marker of the previous loop: when the pairing loop ended without progress the single-CPU loop stops at once and BE gets fewer CPUs than budgeted although eligible CPUs exist")
+		}
+	}
+	r.Floor("PATH", "no-progress loops in calculateBESuppressCPUSetPolicy", n, 2)
+}
+
+// c10sysfloor: the system usage handed to the budget is floored by the node reservation on every path.
+func c10sysfloor(c *Ctx, fn *ssa.Function) {
+	r := c.R
+	r.Rule("PATH: in helpers.CalculateFilterPodsUsed the returned system usage is either the value compared by 'v < nodeReserved' (outcome false) or nodeReserved itself, and that comparison is evaluated on every path to the return (it dominates it)")
+	key := fkey(fn) + "/system>=reservation"
+	var reserved *ssa.Parameter
+	for _, p := range fn.Params {
+		if p.Name() == "nodeReserved" {
+			reserved = p
+		}
+	}
+	var ret *ssa.Return
+	for _, b := range fn.Blocks {
+		if x, ok := b.Instrs[len(b.Instrs)-1].(*ssa.Return); ok {
+			ret = x
+		}
+	}
+	if reserved == nil || ret == nil || len(ret.Results) != 3 {
+		r.Unknown("PATH", key, c.Pos(fn.Pos()), "signature changed (nodeReserved parameter / three results expected)")
+		return
+	}
+	sys := ret.Results[2]
+	fromReserved := false
+	for _, l := range an.Sources(sys, nil) {
+		if l == ssa.Value(reserved) {
+			fromReserved = true
+		}
+	}
+	dominated := false
+	for _, b := range fn.Blocks {
+		for _, in := range b.Instrs {
+			if bo, ok := in.(*ssa.BinOp); ok && bo.Op == token.LSS && bo.Y == ssa.Value(reserved) {
+				if b == ret.Block() || b.Dominates(ret.Block()) {
+					// the compared value must be the alternative of the returned phi
+					for _, l := range an.Sources(sys, nil) {
+						if l == bo.X {
+							dominated = true
+						}
+					}
+					if phi, ok := sys.(*ssa.Phi); ok {
+						for _, e := range phi.Edges {
+							if e == bo.X {
+								dominated = true
+							}
+						}
+					}
+				}
+			}
+		}
+	}
+	r.Check(fromReserved && dominated, "PATH", key, c.InstrPos(ret), "system usage is floored by the node reservation on every path",
+		sprintf("the floor by the node reservation is not applied on every path (reservation can be returned: %v, comparison dominates the return: %v): with skewed metrics the system share drops below the reservation and the BE budget grows when non-BE usage grows", fromReserved, dominated))
 }
 
 // c10pools: guards of the pool appends and provenance of the applied CPU list.
